@@ -337,3 +337,15 @@ reg('C31', engine='pysym',
     note='Trusted: the SymRegex translation (validated against re on concrete mutated sources every run), SymStr model of str '
          'methods, lifted string constants. pycparser and everything after _preprocess see identical token streams.',
     technique='proxy symbolic execution of Python source with symbolic strings and NFA-simulated regexes, SMT (z3)')
+
+reg('C28', engine='llsym',
+    text='Rely/guarantee on the real start-up code of an embedding module generated at run time by the working tree\'s Recompiler '
+         '(_cffi_start_and_call_python, _cffi_start_python, _cffi_carefully_make_gil, _cffi_acquire/release_reentrant_mutex): one '
+         'thread\'s code runs against an environment that, at every compare-and-swap, blocking call and release, makes any step other '
+         'threads of this and other libraries are allowed; obligations: Py_InitializeEx only under the process-wide lock and once; the '
+         'mutex created once under its CAS word; the init code once, under the mutex, after "called" is set; fast path published only after '
+         'a successful init and a write barrier; the extern "Python" function entered only after a successful init (or re-entrantly), '
+         'zeroed result after a failed one; all locks released on every path; re-entrant call from the init code does not block.',
+    note='Trusted: clang IR, llsym, the rely R (each obligation is also every other thread\'s guarantee: circular rely/guarantee), '
+         'sequential consistency per access, fairness of lock holders. Cross-library init cycles and the init code body are outside.',
+    technique='symbolic execution of LLVM IR of the run-time generated module under a nondeterministic environment (rely/guarantee), SMT (z3)')
